@@ -107,6 +107,32 @@ theorem readMem_ok (m : Bytes) (size off n : Nat) (hs : size ≤ m.length) : (re
   · rw [if_pos (by omega)]
     intro h; cases h
 
+theorem xorAt_some (b : Bytes) (i : Nat) (x : UInt8) (h : i < b.length) :
+    ∃ b', xorAt? b i x = some b' ∧ b'.length = b.length := by
+  unfold xorAt?
+  rw [List.getElem?_eq_getElem h]
+  exact ⟨_, rfl, List.length_set⟩
+
+/-- **`fixup_auto_uuid` stays inside `args.buffer`**: on a buffer of `bufSize` bytes both
+    read-modify-write accesses are in bounds (this is what the `< args.buffer_size` guards are for) -/
+theorem fixup_some (buf : Bytes) (off bufSize k : Nat) (hl : buf.length = bufSize) :
+    ∃ b, fixupAutoUuid buf off bufSize k = some b ∧ b.length = buf.length := by
+  unfold fixupAutoUuid
+  have h1 : ∃ b1, (if 3 ≤ off ∧ off - 3 < bufSize then xorAt? buf (off - 3) (lo k) else some buf) = some b1 ∧
+      b1.length = buf.length := by
+    split
+    · next h => exact xorAt_some _ _ _ (by omega)
+    · exact ⟨_, rfl, rfl⟩
+  obtain ⟨b1, hb1, hl1⟩ := h1
+  dsimp only
+  rw [hb1]
+  dsimp only
+  split
+  · next h =>
+    obtain ⟨b2, h2, hl2⟩ := xorAt_some b1 (off - 4) (hi k) (by omega)
+    exact ⟨b2, h2, by omega⟩
+  · exact ⟨_, rfl, hl1⟩
+
 /-- the value returned by a handler characteristic's read handler (`invoke_read_handler`) -/
 theorem handlerRead_len (H : Handlers) (hH : HandlersOk H) (rk cell : Nat) (cells : List Bytes) (off n : Nat)
     (r : Nat × Bytes)
@@ -143,6 +169,19 @@ theorem readAccess_len (H : Handlers) (srv : Server) (cells : List Bytes) (c : C
         · cases h; assumption
         · cases h
       · cases h
+  | charDecl uuid wwr owwr ntf ind auto =>
+    rw [hk] at h
+    dsimp only at h
+    split at h
+    · exact readMem_len _ _ _ _ _ h
+    · split at h
+      · next r hr =>
+        split at h
+        · cases h
+          have := readMem_len _ _ _ _ _ hr
+          rw [List.length_take]; omega
+        · cases h
+      · next hne => exact absurd h (hne _)
   | _ =>
     rw [hk] at h
     dsimp only at h
@@ -161,7 +200,25 @@ theorem readAccess_ok (H : Handlers) (hH : HandlersOk H) (srv : Server) (cells :
   unfold readAccess
   cases hk : a.kind with
   | service uuid k => exact readMem_ok _ _ _ _ (Nat.le_refl _)
-  | charDecl uuid wwr owwr ntf ind => exact readMem_ok _ _ _ _ (Nat.le_refl _)
+  | charDecl uuid wwr owwr ntf ind auto =>
+    dsimp only
+    split
+    · exact readMem_ok _ _ _ _ (Nat.le_refl _)
+    · have hm := readMem_ok (declData srv idx uuid wwr owwr ntf ind) _ off n (Nat.le_refl _)
+      have hl := readMem_len (declData srv idx uuid wwr owwr ntf ind) (declData srv idx uuid wwr owwr ntf ind).length off n
+      generalize readMem (declData srv idx uuid wwr owwr ntf ind) (declData srv idx uuid wwr owwr ntf ind).length off n = x at hm hl
+      obtain ⟨rc, r⟩ := x
+      cases rc with
+      | success =>
+        dsimp only
+        have hr := hl r rfl
+        obtain ⟨b, hb, _⟩ := fixup_some (r ++ List.replicate (n - r.length) 0) off n auto
+          (by simp only [List.length_append, List.length_replicate]; omega)
+        rw [hb]
+        intro h; cases h
+      | oob => exact absurd rfl hm
+      | err code => intro h; cases h
+      | valueEqual => intro h; cases h
   | bound cell size r w =>
     rw [hk] at hs
     dsimp only at hs ⊢
@@ -277,7 +334,7 @@ theorem writeAccess_ok (H : Handlers) (srv : Server) (cells : List Bytes) (c : C
     repeat' split
     all_goals (intro h; cases h; done)
   | service _ _ => intro h; cases h
-  | charDecl _ _ _ _ _ => intro h; cases h
+  | charDecl _ _ _ _ _ _ => intro h; cases h
   | fixed _ _ =>
     dsimp only
     repeat' split
@@ -329,7 +386,7 @@ theorem writeAccess_lens (H : Handlers) (hH : HandlersOk H) (srv : Server) (cell
       | exact ⟨hH.writePlain _ _ _, rfl⟩
       | exact ⟨hH.writeBlob _ _ _ _, rfl⟩
   | service _ _ => exact ⟨rfl, rfl⟩
-  | charDecl _ _ _ _ _ => exact ⟨rfl, rfl⟩
+  | charDecl _ _ _ _ _ _ => exact ⟨rfl, rfl⟩
   | fixed _ _ =>
     dsimp only
     repeat' split
